@@ -152,6 +152,33 @@ def replay_state(st: dict, out: dict, lazy: bool = False) -> None:
                 elif a["a"] == "reprocess":
                     last_out = proc.process(last_out)
                     target_out = last_out
+                elif a["a"] == "wrap":
+                    # users keep building on the tree process() returned (finding F27)
+                    try:
+                        cached = last_out.materialized("mw")
+                    except Exception as exc:  # noqa: BLE001
+                        if type(exc).__name__ == "RelationalAlgebraError" and "will not preserve row order" in str(exc):
+                            cnt["wrap_refused_order_loss"] = cnt.get("wrap_refused_order_loss", 0) + 1
+                            target_out = None
+                            continue
+                        raise
+                    wrapped_out = proc.process(cached)
+                    target_out = wrapped_out
+                    cnt["wrap_steps"] = cnt.get("wrap_steps", 0) + 1
+                    for tree_ in (cached, wrapped_out):
+                        for n in collect_nodes(tree_):
+                            if isinstance(n, Materialization) and n.name == "mw" and n.payload is not None and w.counter is not None \
+                                    and n.payload is not w.counter:
+                                saved = w.counter.starts
+                                try:
+                                    payload_rows(n, proc)
+                                    mid = w.counter.starts
+                                    payload_rows(n, proc)
+                                    if w.counter.starts > mid:
+                                        V(["C10"], "a materialization built on the tree process() returned adopted a transfer payload that "
+                                                   "is not a cache: reading its payload again re-evaluates its upstream tree", step=i)
+                                finally:
+                                    w.counter.starts = saved
                 elif a["a"] == "exec":
                     got = project.rows(rel.engine.execute(rel))
                     target_out = None
@@ -299,7 +326,7 @@ def replay_state(st: dict, out: dict, lazy: bool = False) -> None:
                         V(["C10", "C07"], f"payload of materialization {name!r} holds rows different from its upstream's content", observed=got, expected=want)
             if w.counter is not None:
                 cnt["leaf_starts_total"] = cnt.get("leaf_starts_total", 0) + w.counter.starts
-                n_evals = sum(1 for a in st["evhist"] if a["a"] in ("exec", "process", "reprocess"))
+                n_evals = sum(1 for a in st["evhist"] if a["a"] in ("exec", "process", "reprocess", "wrap"))
                 bound = _leaf_iterations_needed(rel, n_evals)
                 # when process() simplified a materialization onto the leaf itself, the leaf's own payload
                 # object IS the cached payload: reading the cache then iterates it, which is not a re-evaluation
@@ -398,5 +425,11 @@ def run(tier: str, seed: int) -> list[Part]:
         raise MachineryError(f"companion ProcKF8 no longer violates KF8Gone (got {kf.violated})")
     p = Part(name="prochistory:F8-companion", cfg="ProcKF8.cfg", states=max(kf.distinct, 1), transitions=max(kf.generated, 1))
     p.notes.append("TLC counterexample on RA_Proc!Process re-derives F8: a SQL materialization whose upstream is rebuilt ends without payload / unevaluable hook source")
+    parts.append(p)
+    kf = run_tlc("MC_Proc.tla", "ProcKF27.cfg", expect_violation=True, heap="3g")
+    if kf.violated != "WrapSound":
+        raise MachineryError(f"companion ProcKF27 no longer violates WrapSound (got {kf.violated})")
+    p = Part(name="prochistory:F27-companion", cfg="ProcKF27.cfg", states=max(kf.distinct, 1), transitions=max(kf.generated, 1))
+    p.notes.append("TLC counterexample on RA_Proc!Process re-derives F27 from the pinned-commit rule: a materialization built on a processed tree adopts a transfer payload that was not made for caching")
     parts.append(p)
     return parts
